@@ -47,6 +47,7 @@ class Stats:
         self.labels = collections.Counter()
         self.samples = []
         self.discards = 0
+        self.discard_samples = {}     # reason -> first spec dropped for it (errors only; diagnostic, see out/discards/)
         self.failure = None      # (spec, violations)
         self.harness = None      # traceback text
 
@@ -56,6 +57,8 @@ class Stats:
             self.labels[l] += 1
         if out.discard is not None:
             self.discards += 1
+            if "rror" in out.discard and out.discard not in self.discard_samples and len(self.discard_samples) < 8:
+                self.discard_samples[out.discard] = spec
         if out.nontrivial and out.discard is None:
             h = core.spec_hash(spec)
             if h not in self.nontrivial:
@@ -66,6 +69,7 @@ class Stats:
     def as_dict(self):
         return {"evaluations": self.evaluations, "nontrivial": sorted(self.nontrivial),
                 "labels": dict(self.labels), "samples": self.samples, "discards": self.discards,
+                "discard_samples": self.discard_samples,
                 "failure": self.failure, "harness": self.harness}
 
 
@@ -144,6 +148,8 @@ def merge(dicts):
         tot.nontrivial.update(d["nontrivial"])
         tot.labels.update(d["labels"])
         tot.discards += d["discards"]
+        for k_, v_ in d.get("discard_samples", {}).items():
+            tot.discard_samples.setdefault(k_, v_)
         for s in d["samples"]:
             if len(tot.samples) < 5:
                 tot.samples.append(s)
@@ -306,6 +312,12 @@ def main(argv=None):
         "wall_s": round(wall, 2),
         "violations": len(violations),
     }
+    if tot.discard_samples:
+        # diagnostic only: one dropped input per error class (is a defect hiding among the discarded cases?)
+        ddir = os.path.join(ROOT, "out", "discards")
+        os.makedirs(ddir, exist_ok=True)
+        with open(os.path.join(ddir, pid + ".json"), "w") as f:
+            json.dump(tot.discard_samples, f, indent=1, sort_keys=True, default=core._json_default)
     if not a.no_evidence:
         os.makedirs(EVID_DIR, exist_ok=True)
         with open(os.path.join(EVID_DIR, pid + ".json"), "w") as f:
